@@ -10,10 +10,10 @@ def run(ctx):
     ctx.prove()
     h = ctx.build_harness("h_ops")
     if ctx.tier == "quick":
-        ctx.pipe([h, "matrix", "24", "7", "8"], "matrix")
+        ctx.pipe([h, "matrix", "24", "7", "12"], "matrix")
     else:
-        ctx.pipe([h, "matrix", "200", "7", "8"], "matrix", label="matrix-small")
-        ctx.pipe([h, "matrix", "20", "9", "8"], "matrix", label="matrix-9x8")
+        ctx.pipe([h, "matrix", "200", "7", "12"], "matrix", label="matrix-small")
+        ctx.pipe([h, "matrix", "20", "9", "12"], "matrix", label="matrix-9x12")
     ctx.assumptions += ["positive definiteness is PROVED in Dirichlet mode (C05.pd_dirichlet) and symmetry in both modes; across the "
                         "origin no nodal argument exists (C05.psd_across_fails is a machine-checked counterexample under pointwise "
                         "ellipticity alone), so that part is measured per generated case by the exact LDL^T"]
